@@ -35,6 +35,11 @@ TermLists == {<<Term(d, e)>> : d \in Dirs, e \in KeyExprs}
 \* programs over the array as context
 SortProgs == {NSort(NVar(""), ts) : ts \in TermLists}
              \cup {PA(<<NSort(NVar(""), ts), NName(kid)>>) : ts \in {<<Term(">", K)>>, <<Term("", S), Term(">", K)>>}}
+             \* a sort of a sort: the outer terms decide, the inner order only breaks their ties (stability)
+             \cup {NSort(NSort(NVar(""), <<Term(d1, e1)>>), <<Term(d2, e2)>>) : d1 \in {"", ">"}, d2 \in {"", ">"}, e1 \in {K, S}, e2 \in {K, S}}
+             \cup {PA(<<NSort(NSort(NVar(""), <<Term("", K)>>), <<Term(">", S)>>), NName(kid)>>), NSort(NBlock(<<NSort(NVar(""), <<Term(">", S)>>)>>), <<Term("", K)>>),
+                   NCall(NVar("sort"), <<NSort(NVar(""), <<Term(">", K)>>), NLambda(<<"l", "r">>, NCmpOp(">", PA(<<NVar("l"), NName(ks)>>), PA(<<NVar("r"), NName(ks)>>)))>>),
+                   NSort(NCall(NVar("reverse"), <<NVar("")>>), <<Term("", K)>>), NSort(NPred(NVar(""), <<NCmpOp(">=", K, NNum(IntV(0)))>>), <<Term(">", S), Term("", K)>>)}
 \* $sort with comparators derived from strict weak orders on one or two members
 Cmp(body) == NLambda(<<"l", "r">>, body)
 LK == PA(<<NVar("l"), NName(kk)>>)  RK == PA(<<NVar("r"), NName(kk)>>)
@@ -71,7 +76,7 @@ Before(ts, x, y) ==   \* x strictly before y under the term list
              IN  IF IsUndef(a) THEN FALSE ELSE IF IsUndef(b) THEN TRUE
                  ELSE IF ts[j].dir = ">" THEN ValLt(b, a) ELSE ValLt(a, b)
 IsStableSortedPerm ==
-    (out # Pending /\ case.ast.k = "Sort" /\ PlainTerms(case.ast.terms) /\ case.inp.v # <<>> /\ out.o = "val"
+    (out # Pending /\ case.ast.k = "Sort" /\ case.ast.e = NVar("") /\ PlainTerms(case.ast.terms) /\ case.inp.v # <<>> /\ out.o = "val"
      /\ \A i \in 1..Len(case.inp.v) : IsObj(case.inp.v[i]) /\ ObjHas(case.inp.v[i], kid)) =>
         LET res == IF out.r.t = "arr" THEN out.r.v ELSE <<out.r>>
             inp == case.inp.v
